@@ -15,7 +15,7 @@ RULE = ("cases = naive simulations: 1..4 pools of any size, DAG and generated wo
 ASSUMPTIONS = ["pool free amounts are read at the scheduler boundary right before the round"]
 NSHARDS = {"quick": 16, "thorough": 16}
 N = {"quick": 60, "thorough": 6000}
-REQUIRE = {"naive_assignments": 3000, "multi_pool_rounds": 200, "rounds_with_failed_pipelines": 300, "first_containers": 2000,
+REQUIRE = {"scale:run_with_more_than_256_failed_pipelines": 1, "naive_assignments": 3000, "multi_pool_rounds": 200, "rounds_with_failed_pipelines": 300, "first_containers": 2000,
            "sim_runs:naive/multi": 200, "sim_runs:naive/single": 200}
 
 
